@@ -68,6 +68,7 @@ var (
 	}
 
 	errParamExp = errors.New("syntax error: invalid parameter expansion")
+	errBailout  = errors.New("bailout")
 )
 
 type lexer struct {
@@ -138,7 +139,7 @@ func (l *lexer) run() {
 			close(l.done)
 		}
 
-		if e := recover(); e != nil {
+		if e := recover(); e != nil && e != errBailout {
 			// re-panic
 			panic(e)
 		}
@@ -1688,7 +1689,7 @@ func (l *lexer) emit(typ int) {
 	case l.token <- tok:
 	case <-l.cancel:
 		// bailout
-		panic(nil)
+		panic(errBailout)
 	}
 	l.mark(0)
 }
